@@ -462,7 +462,143 @@ def classify_contract(a, o):
     return f"{tag}:{'ok' if 'ok' in o else o.get('err')}"
 
 
+# ------------------------------------------------------------------ c09.xinclude: process_xinclude of the native handler
+XI_NS = "http://www.w3.org/2001/XInclude"
+_XI_TEXTS = [None, None, "t", "a:x", "x y", "7"]
+
+
+def _xi_print(n, scope=None):
+    """one canonical spelling of an XTree with its declarations (no white space added)"""
+    scope = dict(scope or {})
+    for p_, u in n["d"]:
+        scope[p_] = u
+
+    def name(q, is_attr):
+        u, l = R.split_clark(q)
+        if u is None:
+            return l
+        if not is_attr and scope.get("") == u:
+            return l
+        return next(p_ for p_, w in scope.items() if w == u and p_) + ":" + l
+
+    s = "<" + name(n["q"], False)
+    for p_, u in n["d"]:
+        s += " xmlns%s=\"%s\"" % (":" + p_ if p_ else "", u)
+    for k, v in n["a"]:
+        s += " %s=\"%s\"" % (name(k, True), v.replace("&", "&amp;").replace("<", "&lt;").replace('"', "&quot;"))
+    inner = (n["t"] or "").replace("&", "&amp;").replace("<", "&lt;") + "".join(_xi_print(c, scope) for c in n["c"])
+    s += ">" + inner + "</" + name(n["q"], False) + ">" if inner or n["t"] == "" else "/>"
+    return s + (n["tl"] or "").replace("&", "&amp;").replace("<", "&lt;")
+
+
+def gen_xinclude(rng, tier):
+    """small documents split over several files (sub directories, nested includes, tails behind the
+    include element, declarations inside and outside the parts, missing files, recursive includes),
+    parsed from a path or from a stream with / without a configured base url"""
+    import c08_docs as D
+
+    wk = D.well_known()
+    for _ in range(n_cases(tier, 250, 4000)):
+        files = {}
+        counter = [0]
+
+        def el(depth, fname, allow_inc=True):
+            ns = rng.choice([None, None, "urn:a", "urn:b"])
+            d = []
+            q = rng.choice(["e", "f", "item"])
+            if ns:
+                pf = rng.choice(["a", "b", "c"])
+                d.append([pf, ns])
+                q = "{%s}%s" % (ns, q)
+            if rng.random() < 0.2:
+                d.append([rng.choice(["a", "z"]), rng.choice(["urn:a", "urn:z"])])
+            d = [x for i, x in enumerate(d) if x[0] not in [y[0] for y in d[:i]]]
+            kids = []
+            if depth < 3:
+                for _ in range(rng.randint(0, 2)):
+                    if allow_inc and rng.random() < 0.45 and counter[0] < 5:
+                        kids.append(include(depth, fname))
+                    else:
+                        kids.append(el(depth + 1, fname, allow_inc))
+            attrs = [["k", rng.choice(["v", "a:v", "1"])]] if rng.random() < 0.3 else []
+            return {"d": d, "q": q, "a": attrs, "s": "passed", "t": rng.choice(_XI_TEXTS) if not kids or rng.random() < 0.3 else None,
+                    "c": kids, "tl": rng.choice([None, None, None, "tl"]) if depth else None}
+
+        def include(depth, fname):
+            counter[0] += 1
+            r = rng.random()
+            here = fname.rsplit("/", 1)[0] + "/"
+            if r < 0.08:
+                target, href = here + "missing.xml", "missing.xml"          # no such file
+            elif r < 0.14:
+                href = fname.rsplit("/", 1)[1]                                # includes itself
+                target = None
+            else:
+                sub = rng.choice(["", "", "sub/"])
+                href = "%sp%d.xml" % (sub, counter[0])
+                target = here + href
+                files[target] = None
+                part = el(depth + 1, target)
+                part["tl"] = None
+                files[target] = part
+            attrs = [["href", href]]
+            if rng.random() < 0.1:
+                attrs.append(["parse", "xml"])
+            return {"d": [["xi", XI_NS]], "q": "{%s}include" % XI_NS, "a": attrs, "s": "passed", "t": None, "c": [],
+                    "tl": rng.choice([None, None, "after", " "])}
+
+        main = "/d/main.xml"
+        files[main] = None
+        root = el(0, main)
+        if not any(c["q"].endswith("}include") for c in root["c"]) and rng.random() < 0.8:
+            root["c"].append(include(0, main))
+            root["t"] = None if root["t"] is None else root["t"]
+        files[main] = root
+        mode = rng.choice(["path", "path", "stream_base_file", "stream_base_dir", "stream_nobase", "path_base_empty"])
+        yield {"files": [[k, v] for k, v in files.items() if v is not None], "main": main,
+               "base": {"stream_base_file": main, "stream_base_dir": "/d/", "path_base_empty": ""}.get(mode),
+               "path_source": mode.startswith("path"), "well_known": wk, "_mode": mode}
+
+
+def impl_xinclude(a):
+    from xsdata.formats.dataclass.parsers.handlers import XmlEventHandler
+
+    d = tempfile.mkdtemp(prefix="c09-xi-")
+    cwd = os.getcwd()
+    try:
+        def real(name):
+            return d + name[2:]          # "/d/x" -> "<tmp>/x"
+
+        for name, tree in a["files"]:
+            os.makedirs(os.path.dirname(real(name)), exist_ok=True)
+            with open(real(name), "w", encoding="utf-8") as f:
+                f.write(_xi_print(tree))
+        stub = _StubParser()
+        stub.config.process_xinclude = True
+        stub.config.base_url = None if a["base"] is None else ("" if a["base"] == "" else real(a["base"]))
+        ns_map: dict = {}
+        os.chdir(d)                       # relative hrefs without a base are looked up here: nothing is
+        os.mkdir("empty"); os.chdir("empty")
+        try:
+            source = real(a["main"]) if a["path_source"] else io.BytesIO(open(real(a["main"]), "rb").read())
+            XmlEventHandler(parser=stub, clazz=None).parse(source, ns_map)
+        except Exception as e:  # noqa: BLE001
+            return {"err": type(e).__name__}
+        return {"ok": {"events": stub.calls, "ns_map": [[p_, u] for p_, u in ns_map.items()]}}
+    finally:
+        os.chdir(cwd)
+        shutil.rmtree(d, ignore_errors=True)
+
+
+def classify_xinclude(a, o):
+    n_inc = json.dumps(a["files"]).count("}include")
+    return f"{a['_mode']}:{min(n_inc, 3)} includes:{'ok' if 'ok' in o else o.get('err', 'unsupported')}"
+
+
 CORRS = [
+    Corr("c09.xinclude", gen_xinclude, impl_xinclude, compare=cmp_respelled, classify=classify_xinclude,
+         describe="XmlEventHandler with process_xinclude on documents split over files (recording parser) vs get_base_url / "
+                  "xinclude_loader / ElementInclude / iterwalk of the model"),
     Corr("c08.pump", gen_contract, impl_contract_native, classify=classify_contract,
          describe="TokeniserContract (native): XmlEventHandler's calls on a recording parser for respelled documents (all rewrite "
                   "kinds but XInclude, read in pieces) vs pump (toks infoset)"),
